@@ -66,7 +66,7 @@ def _set_axis_kw():
         ax = a.axes[s["axis"]]
         if "C16" in w.props:
             if s["name"] == "tol":
-                if "tol" in ax.attrs or ax.tol != s["value"]:
+                if V.attrs_key(ax.attrs) != V.attrs_key(before) or ax.tol != s["value"]:
                     raise Violation("C16", "route_set", "set_axis(tol=%r): a class member must be set, not stored as metadata: tol=%r attrs %r" % (
                         s["value"], ax.tol, dict(ax.attrs)))
             else:
